@@ -90,18 +90,15 @@ func PipeIO(writer io.Writer, reader io.Reader) (n int64, err error) {
 	pr, pw := io.Pipe()
 	errC := make(chan error, 1)
 	go func() {
-		defer pw.Close()
-		_, err = io.Copy(pw, reader)
-		if err != nil {
-			errC <- err
-		}
-		close(errC)
+		// the producer keeps its own error: the named results belong to the consumer side
+		_, errRead := io.Copy(pw, reader)
+		_ = pw.CloseWithError(errRead) // a nil error is a plain EOF for the consumer
+		errC <- errRead
 	}()
 	written, err := io.Copy(writer, pr)
-	select {
-	case err = <-errC:
-		return 0, err
-	default:
+	_ = pr.CloseWithError(err) // when the writer gave up, let the producer go instead of blocking on the pipe
+	if errRead := <-errC; errRead != nil && (err == nil || err == errRead) {
+		return 0, errRead
 	}
 	return written, err
 }
